@@ -103,6 +103,28 @@ class Ctx:
         self.undecided.append(f"{rule} at {site}: {msg}")
 
 
+def import_rules(ctx: "Ctx", module: str, rules, new_rule: str,
+                 pred=None) -> int:
+    """run another property's rule module and adopt the obligations of the
+    given rule ids under `new_rule` (a shared structural clause, e.g. cache
+    coherence of the pipeline's mutators is also a necessary condition of
+    'the stored errors belong to the projected trajectories')"""
+    mod = importlib.import_module(f"sa.rules.{module}")
+    sub = Ctx(ctx.pid, ctx.prog, ctx.tier, ctx.seed)
+    mod.check(sub)
+    n = 0
+    for o in sub.obligations:
+        if o.rule in rules and (pred is None or pred(o)):
+            ctx.obligations.append(Obligation(
+                new_rule, o.site, o.ok, o.msg,
+                o.key.replace(o.rule, new_rule, 1), o.facts, o.nontrivial))
+            n += 1
+    for u in sub.undecided:
+        if any(u.startswith(r) for r in rules):
+            ctx.undecided.append(u)
+    return n
+
+
 def load_known() -> dict:
     p = os.path.join(VERIF, "known_findings.json")
     with open(p) as f:
